@@ -29,9 +29,15 @@ REAL = ['RealFaultAddressInternal', 'RealFaultAddressExternal', 'RealFaultAddres
 PROT_BITS = [0x01, 0x02, 0x04, 0x08, 0x10, 0x20, 0x40]
 
 
+SMALL_POOL = [0, 1, 77, 4242, 600, 607, 614]
+
+
 def _unrelated(rng):
     cat = worlds.catalog()
     r = rng.random()
+    if r < 0.12:
+        # a thread announcement whose pid / unique id come from the same small pool as the faults' pid words
+        return {'k': 'one', 'name': 'TRACE_DATA_NEWTHREAD', 'q': 0, 'a': [900000 + rng.randrange(9), rng.pick(SMALL_POOL), rng.pick([0, 1]), rng.pick(SMALL_POOL)]}
     if r < 0.5:
         return worlds.op_single(rng, rng.pick(['MACH_MKRUNNABLE', 'MACH_SCHED', 'DecrSet', 'MACH_BLOCK']))
     if r < 0.8:
@@ -56,6 +62,8 @@ def _fault(rng):
         else:
             rf = rng.pick(REAL)
             rs, _ = domains.draw(rng, rf)
+            if rng.chance(0.4):
+                rs[3] = rng.pick(SMALL_POOL)        # the pid word: values that also occur as unique ids / pids of thread announcements
             inner.append({'k': 'one', 'name': rf, 'q': rng.pick([0, 0, 0, 3]), 'a': rs})
     for _ in range(rng.pick([0, 0, 1, 2])):
         inner.insert(rng.randrange(len(inner) + 1), _unrelated(rng))
@@ -77,6 +85,13 @@ def _launch(rng, depth=0):
         inner.insert(rng.randrange(len(inner) + 1), _unrelated(rng))
     if depth == 0 and rng.chance(0.15):
         inner.insert(rng.randrange(len(inner) + 1), _fault(rng))
+    if rng.chance(0.2):
+        # an initialiser dlopen()s something during the launch: a complete timing scope (same scope word at START and END)
+        # with an image map inside - still a map record nested in the launch window
+        scope = rng.word()
+        inner.insert(rng.randrange(len(inner) + 1),
+                     {'k': 'sys', 'name': rng.pick(['DBG_DYLD_TIMING_DLOPEN', 'DBG_DYLD_TIMING_DLCLOSE', 'DBG_DYLD_TIMING_DLADDR']), 's': [scope, 0, 0, 0], 'e': [scope, 1, 0, 0],
+                      'in': [worlds.op_imap(rng, rng.randbytes(16).hex(), base + rng.randrange(0, 1 << 16), shared=rng.chance(0.3))]})
     return {'k': 'sys', 'name': 'DBG_DYLD_TIMING_LAUNCH_EXECUTABLE', 's': [rng.word(), rng.word(), 0, 0], 'e': rng.words(), 'in': inner}
 
 
